@@ -258,8 +258,9 @@ def colC (E : Ext) : Conv → Val → Outcome (Option Err)
       | .ok (some ex) => .ok (some (.wrongType (expected E (.datetime ty) false) v (causeOf ex) none))
       | .interrupt => .interrupt
       | .leak ex => .leak ex
-    | .opaque t _ => if t == ty then .ok none else .ok (some (.wrongType (expected E (.datetime ty) false) v none none))
-    | _ => .ok (some (.wrongType (expected E (.datetime ty) false) v none none))
+    | _ =>
+      if dtAccepts ty v then .ok none
+      else .ok (some (.wrongType (expected E (.datetime ty) false) v none none))
   | .literal vals, v =>
     if vals.any (Val.pyEq v) then .ok none
     else .ok (some (.wrongType (expected E (.literal vals) false) v none none))
